@@ -149,6 +149,12 @@ mut("C09-revert-memory-map-table-bound", "os_unix.c",
     "#define MAX_MMAPS 4096\n", "#define MAX_MMAPS 30\n")
 
 
+mut("C18-revert-java-dir-fix", "emit.c",
+    "(dir && dir[0]) ? dir : \".\",", "dir,")
+mut("C18-output-dir-error-not-raised", "emit.c",
+    "	if (!osDirIsThere(dir)) return -1;", "	if (!osDirIsThere(dir)) return 1;")
+
+
 def main():
     out = os.path.join(os.path.dirname(os.path.abspath(__file__)), "mutants")
     os.makedirs(out, exist_ok=True)
